@@ -84,6 +84,20 @@ def send_failures_propagate(p: Program) -> List[Item]:
         sp = _send_params(f)
         if any(isinstance(c.func, ast.Name) and c.func.id in sp for c in calls_in(f)):
             forwarding.add(f.fq)
+    changed = True
+    while changed:  # ... or hand it to a function that does (send_http_body -> _send_event -> send)
+        changed = False
+        for f in fns:
+            if f.fq in forwarding:
+                continue
+            sp = _send_params(f)
+            for c in calls_in(f):
+                if any(isinstance(a, ast.Name) and a.id in sp for a in c.args):
+                    r = p.resolve_call(f, c, f.cls)
+                    if isinstance(r, FuncInfo) and r.fq in forwarding and r.module.name == "baize.asgi.helper" and f.module.name == "baize.asgi.helper":
+                        forwarding.add(f.fq)
+                        changed = True
+                        break
     n = 0
     for f in fns:
         sp = _send_params(f)
